@@ -57,6 +57,8 @@ structure Env where
   interm : Bool := false
   goal : State := #[]
   moreGoals : Array State := #[]
+  /-- `boundsblind 1`: the validity checker does collision checking only -/
+  blind : Bool := false
   thr : Float := eps
   starts : Array State := #[]
   draws : Array (Draw State) := #[]
@@ -96,7 +98,7 @@ def collides (e : Env) (s : State) : Bool :=
   e.boxes.any (fun b => (List.range e.pdim).all (fun d => !(s[d]! < b.lo[d]! || s[d]! > b.hi[d]!)))
 
 /-- `RecordingValidityChecker::isValid` -/
-def isValid (e : Env) (s : State) : Bool := inBounds e s && !collides e s
+def isValid (e : Env) (s : State) : Bool := (e.blind || inBounds e s) && !collides e s
 
 def lvs (e : Env) : Float := extent e * e.res
 
@@ -206,6 +208,8 @@ def step (e : Env) (ts : List String) : Env × String :=
   | ["res", x] => match parseFloatBits? x with | some x => ({ e with res := x }, "ok") | none => (e, "bad-op")
   | ["range", x] => match parseFloatBits? x with | some x => ({ e with range := x }, "ok") | none => (e, "bad-op")
   | ["thr", x] => match parseFloatBits? x with | some x => ({ e with thr := x }, "ok") | none => (e, "bad-op")
+  | ["boundsblind", "0"] => ({ e with blind := false }, "ok")
+  | ["boundsblind", "1"] => ({ e with blind := true }, "ok")
   | ["interm", "0"] => ({ e with interm := false }, "ok")
   | ["interm", "1"] => ({ e with interm := true }, "ok")
   | "goal" :: rest =>
